@@ -312,7 +312,7 @@ def splice(take, mode, mutant=None):
         if "__verif_" in text:
             raise Undecided(f"{take.key}: unreplaced placeholder: " + re.search(r"__verif_\w+", text).group(0))
         unused = set(sec) - used - {"attr", "contract", "pre_body"}
-        if unused:
+        if unused and not (mutant is not None and mutant[1] == take.key):
             raise Undecided(f"{take.key}: contract sections without an anchor in the extracted code: {sorted(unused)}")
     else:
         deriv = get("after")
